@@ -507,6 +507,31 @@ fn replay_cmd(ctx: &Ctx, path: &std::path::Path) -> i32 {
             }
         };
     }
+    if case["directed"].is_string() {
+        // directed phases are single deterministic schedules: re-run the phase and show what it reports now
+        let mut agg = Agg::new();
+        let what = case["directed"].as_str().unwrap();
+        let d = match what {
+            "client library boundedness" => client_library_boundedness(ctx, &mut agg),
+            "long sequential run" => long_sequential_run(ctx, ctx.prop.as_str(), &mut agg),
+            _ => directed_continuous_writer(ctx, &mut agg),
+        };
+        println!("directed phase '{what}' re-run; recorded case: {case}");
+        if what == "client library boundedness" {
+            for r in d["results"].as_array().cloned().unwrap_or_default() {
+                if r["situation"] == case["situation"] && r["library"] == case["library"] {
+                    println!("now: {} / {} -> {}", r["library"], r["situation"], r["returned"]);
+                }
+            }
+        }
+        for (sig, (_, v)) in agg.best.iter() {
+            println!("  {sig} :: {}", v.text);
+        }
+        if agg.best.is_empty() {
+            println!("  no violation in this phase now");
+        }
+        return 0;
+    }
     if case["engine"] == "seqmc-writer" {
         let sc = Scenario::from_json(&case["scenario"]);
         let dir = thread_dir(&ctx.scratch());
@@ -707,6 +732,8 @@ fn run_reader_prop(ctx: &Ctx, prop: Prop, lit: (usize, u64)) -> i32 {
     if prop == Prop::C18 {
         let d = directed_continuous_writer(ctx, &mut agg);
         extra.push(("directed_continuous_writer_scenario", d));
+        let d = client_library_boundedness(ctx, &mut agg);
+        extra.push(("client_library_calls", d));
     }
     if prop == Prop::C03 {
         let d = long_sequential_run(ctx, "C03", &mut agg);
@@ -751,7 +778,30 @@ fn long_sequential_run(ctx: &Ctx, pfx: &str, agg: &mut Agg) -> Value {
     let mut sparse: Option<ShmReader> = None;
     let mut calls = 0u64;
     let mut restarts = 0u64;
+    // a second, unrelated segment with its own writer and reader in the same process, published to at another
+    // cadence: whatever a reader keeps must be its own (nothing shared between instances)
+    let path2 = dir.join("long-other");
+    let _ = std::fs::remove_file(&path2);
+    let cpath2 = std::ffi::CString::new(path2.to_str().unwrap()).unwrap();
+    let mut w2 = ShmWriter::new(&path2).expect("second writer");
+    let rec2 = |k: i64| Rec { as_of_s: 77_000 + k, as_of_ns: 5, va_s: 78_000 + k, va_ns: 6, bound: 9_000_000 + (k % 11), drift: 222, reserved: 0, status: [2u32, 1][(k % 2) as usize] };
+    let mut last2 = 0i64;
+    w2.write(&rec2(last2).to_ceb());
+    let mut other: Option<ShmReader> = ShmReader::new(&cpath2).ok();
     for k in 1..=n {
+        if k % 3 == 0 {
+            last2 = k;
+            w2.write(&rec2(k).to_ceb());
+        }
+        if k % 2 == 0 || k % 3 == 0 {
+            match other.as_mut().map(|r| r.snapshot().map(Rec::from_ceb).map_err(|e| format!("{e:?}"))) {
+                Some(got) if got == Ok(rec2(last2)) => calls += 1,
+                got => {
+                    agg.add(format!("{pfx}:long-run:second-segment"), 0, format!("sequential run with two segments in one process: the reader of the second segment obtained {:?} instead of that segment's latest publication {}", got, rec2(last2).json()), json!({"engine": "seqmc", "directed": "long sequential run", "publication": k, "reader": "second segment", "calls": []}));
+                    break;
+                }
+            }
+        }
         if k % 10_007 == 0 {
             // a clean daemon restart on the way
             drop(w);
@@ -810,8 +860,10 @@ fn long_sequential_run(ctx: &Ctx, pfx: &str, agg: &mut Agg) -> Value {
         }
     }
     drop(w);
+    drop(w2);
     close_leaked_fds(&path);
-    json!({"kind": "directed (one sequential schedule)", "publications": n, "clean_restarts": restarts, "reader_calls": calls})
+    close_leaked_fds(&path2);
+    json!({"kind": "directed (one sequential schedule)", "publications": n, "clean_restarts": restarts, "reader_calls": calls, "second_segment_in_the_same_process": true})
 }
 
 fn w_generation(path: &std::path::Path) -> u16 {
@@ -833,6 +885,12 @@ fn writer_oracles_c04(works: &[&Work], agg: &mut Agg) -> u64 {
         for (ii, inc) in w.trace.incs.iter().enumerate() {
             n += 1;
             let doc = || json!({"engine": "seqmc-writer", "scenario": w.sc.json(), "incarnation": ii, "calls": []});
+            if inc.usable_before && inc.new_ok && inc.ino_before.is_some() && inc.ino_after_new != inc.ino_before {
+                agg.add("C04:valid-segment-recreated".into(), 0, format!("incarnation {ii} found a valid segment and replaced it by a new file (inode {:?} -> {:?}): attached clients keep the old one mapped and never see another publication", inc.ino_before, inc.ino_after_new), doc());
+            }
+            if inc.new_ok && inc.ino_after_exit != inc.ino_after_new {
+                agg.add("C04:segment-replaced-or-removed-at-exit".into(), 0, format!("incarnation {ii} ({}) left the segment path naming {:?}, it named {:?} while the daemon ran: clients attached to the old file are cut off from the restarted daemon", if inc.crashed { "killed" } else { "clean exit" }, inc.ino_after_exit, inc.ino_after_new), doc());
+            }
             if inc.usable_before {
                 if inc.wiped {
                     agg.add("C04:valid-segment-wiped".into(), 0, format!("incarnation {ii} found a valid segment and re-initialised it instead of taking it over in place"), doc());
@@ -938,6 +996,130 @@ fn directed_continuous_writer(ctx: &Ctx, agg: &mut Agg) -> Value {
     close_leaked_fds(&path2);
     json!({"free_running": {"kind": "directed (free-running threads, not exhaustive)", "reader_calls": calls, "reader_errors": errs, "writer_updates": updates, "longest_call_s": worst},
            "adversarial": {"kind": "directed (one deterministic schedule: an update between every copy and re-check)", "updates_the_adversary_was_prepared_to_make": max_updates, "updates_made": made, "record_copies_in_the_call": copies, "result": format!("{res:?}"), "wall_s": adv_wall}})
+}
+
+/// C18 one level up: the calls applications really make (`ClockBoundClient::now()`, the C library's
+/// `clockbound_now()`) in every situation a client can find the segment in with no daemon around to change
+/// it, under a virtual clock that does not advance. Each call runs where a hang can be observed and ended:
+/// the Rust client in a forked child with a real-time limit, the C library in the C program of the C17
+/// check (whose replies are read with a limit). Only termination is judged here; the answers are C05/C14/C17's.
+fn client_library_boundedness(ctx: &Ctx, agg: &mut Agg) -> Value {
+    use crate::common::par::run_with_timeout;
+    use crate::common::vclock::{self, VClock};
+    use clock_bound_client::ClockBoundClient;
+    use clock_bound_shm::{ShmWrite, ShmWriter};
+    use std::os::unix::fs::FileExt;
+    const S: i128 = 1_000_000_000;
+    let dir = thread_dir(&ctx.scratch());
+    let rec0 = Rec { as_of_s: 5000, as_of_ns: 0, va_s: 6000, va_ns: 0, bound: 10_000, drift: 1000, reserved: 0, status: 1 };
+    // (name, mutation applied after the client has attached, calls made before it, monotonic reading, injected clock errno)
+    let situations: Vec<(&str, &str, u32, i128, i32)> = vec![
+        ("valid record, one second old", "none", 0, 5001 * S, 0),
+        ("as-of one hour ahead of the monotonic clock", "none", 0, 1400 * S, 0),
+        ("as-of 2 ns ahead of the monotonic clock", "none", 0, 5000 * S - 2, 0),
+        ("past void-after", "none", 0, 7000 * S, 0),
+        ("update left in flight by a dead daemon, first call", "begin-update", 0, 5001 * S, 0),
+        ("update left in flight by a dead daemon, after a successful call", "begin-update", 1, 5001 * S, 0),
+        ("segment wiped by a daemon that died before re-initialising it", "wipe", 1, 5001 * S, 0),
+        ("a published record with a drift of 2e9 ppb", "publish-malformed", 1, 5001 * S, 0),
+        ("a published record whose as-of is ahead of the clock, after a successful call", "publish-future", 1, 5001 * S, 0),
+        ("clock_gettime fails", "none", 1, 5001 * S, libc::EINVAL),
+    ];
+    let real_ns: i128 = 1_700_000_000 * S + 5;
+    let mutate = |what: &str, path: &std::path::Path, w: &mut ShmWriter| -> Result<(), String> {
+        let file = std::fs::OpenOptions::new().read(true).write(true).open(path).map_err(|e| e.to_string())?;
+        match what {
+            "begin-update" => {
+                let mut g = [0u8; 2];
+                file.read_exact_at(&mut g, 14).map_err(|e| e.to_string())?;
+                let gen = u16::from_ne_bytes(g);
+                file.write_all_at(&(gen | 1).to_ne_bytes(), 14).map_err(|e| e.to_string())?;
+                file.write_all_at(&[0x11u8; 24], 16).map_err(|e| e.to_string())?;
+            }
+            "wipe" => file.write_all_at(&[0u8; 60], 12).map_err(|e| e.to_string())?,
+            "publish-malformed" => w.write(&Rec { drift: 2_000_000_000, ..rec0 }.to_ceb()),
+            "publish-future" => w.write(&Rec { as_of_s: 9000, va_s: 10_000, ..rec0 }.to_ceb()),
+            _ => {}
+        }
+        Ok(())
+    };
+    let mut results = vec![];
+    // the Rust client
+    for (i, (name, what, calls_before, mono_ns, fail)) in situations.iter().enumerate() {
+        let path = dir.join(format!("cl-{i}"));
+        let r = run_with_timeout(10, || {
+            let _ = std::fs::remove_file(&path);
+            let mut w = ShmWriter::new(&path).expect("writer");
+            w.write(&rec0.to_ceb());
+            let mut cl = match ClockBoundClient::new_with_path(path.to_str().unwrap()) {
+                Ok(c) => c,
+                Err(e) => return json!({"open": format!("{:?}", e.kind)}),
+            };
+            vclock::arm(VClock { real_ns, mono_ns: 5001 * S, auto_advance_ns: 0, fail_errno: 0, fail_clock: -1 });
+            for _ in 0..*calls_before {
+                let _ = cl.now();
+            }
+            if let Err(e) = mutate(what, &path, &mut w) {
+                return json!({"setup": e});
+            }
+            vclock::arm(VClock { real_ns, mono_ns: *mono_ns, auto_advance_ns: 0, fail_errno: *fail, fail_clock: -1 });
+            let r = cl.now();
+            vclock::disarm();
+            json!({"now": match r { Ok(n) => format!("ok {:?}", n.clock_status), Err(e) => format!("err {:?}", e.kind) }})
+        });
+        match r {
+            Ok(v) => results.push(json!({"library": "Rust client", "situation": name, "returned": v})),
+            Err(e) if e == "timeout" => {
+                agg.add("C18:client-library-call-does-not-return".into(), 0, format!("ClockBoundClient::now() did not return within 10 s of real time (virtual clock standing still, no daemon) in the situation: {name}"), json!({"engine": "seqmc", "directed": "client library boundedness", "library": "Rust client", "situation": name, "calls": []}));
+                results.push(json!({"library": "Rust client", "situation": name, "returned": "NEVER"}));
+            }
+            Err(e) => machinery_failure(&format!("client-library phase, {name}: {e}")),
+        }
+    }
+    // the C library (if the hook-free artefacts are there: ./check builds them for this property)
+    let mut c_note = json!("run");
+    match crate::gridmc::abi::build_c(ctx, false) {
+        Err(e) => c_note = json!(format!("skipped: {}", e.lines().next().unwrap_or(""))),
+        Ok(bin) => {
+            for (i, (name, what, calls_before, mono_ns, fail)) in situations.iter().enumerate() {
+                let path = dir.join(format!("c-{i}"));
+                let _ = std::fs::remove_file(&path);
+                let mut w = ShmWriter::new(&path).expect("writer");
+                w.write(&rec0.to_ceb());
+                let mut c = match crate::gridmc::abi::start_c(&bin, "libclockbound.so") {
+                    Ok(c) => c,
+                    Err(e) => machinery_failure(&e),
+                };
+                let mut run = || -> Result<String, String> {
+                    if *fail != 0 {
+                        // the N command opens, injects the clock failure and calls
+                        return c.ask(&format!("N {} {} {} {} {} {} -1", path.display(), real_ns.div_euclid(S), real_ns.rem_euclid(S), mono_ns.div_euclid(S), mono_ns.rem_euclid(S), fail));
+                    }
+                    let o = c.ask(&format!("P 1 {}", path.display()))?;
+                    if o != "open ok" {
+                        return Ok(o);
+                    }
+                    for _ in 0..*calls_before {
+                        c.ask(&format!("Q 1 {} {} 5001 0", real_ns.div_euclid(S), real_ns.rem_euclid(S)))?;
+                    }
+                    mutate(what, &path, &mut w)?;
+                    c.ask(&format!("Q 1 {} {} {} {}", real_ns.div_euclid(S), real_ns.rem_euclid(S), mono_ns.div_euclid(S), mono_ns.rem_euclid(S)))
+                };
+                match run() {
+                    Ok(l) => results.push(json!({"library": "C library", "situation": name, "returned": l})),
+                    Err(e) if e.contains("did not return within") => {
+                        agg.add("C18:client-library-call-does-not-return".into(), 0, format!("{e}, in the situation: {name}"), json!({"engine": "seqmc", "directed": "client library boundedness", "library": "C library", "situation": name, "calls": []}));
+                        results.push(json!({"library": "C library", "situation": name, "returned": "NEVER"}));
+                    }
+                    Err(e) => machinery_failure(&format!("client-library phase (C), {name}: {e}")),
+                }
+                c.finish();
+                drop(w);
+                close_leaked_fds(&path);
+            }
+        }
+    }
+    json!({"kind": "directed (each situation once per library, virtual clock standing still)", "situations": situations.len(), "c_library": c_note, "results": results})
 }
 
 // ---------------------------------------------------------------------------------------------
